@@ -94,7 +94,8 @@ def pt_shape(shape: list[Any], sps: dict[str, Any]) -> tuple[Any, ...]:
 class SymBuild:
     """pytato build of a symbolic spec (SizeParams + symbolic placeholder shapes)."""
 
-    def __init__(self, spec: dict[str, Any]):
+    def __init__(self, spec: dict[str, Any], post: Any = None):
+        """*post(id, array)* may decorate (e.g. tag) every input and node as in PtBuild."""
         import pytato as pt
         self.spec = spec
         self.sps = {p: pt.make_size_param(p) for p in spec["params"]}
@@ -102,6 +103,8 @@ class SymBuild:
         for inp in spec["inputs"]:
             self.nodes[inp["id"]] = pt.make_placeholder(
                 inp["name"], pt_shape(inp["shape"], self.sps), np.dtype(inp["dtype"]))
+            if post is not None:
+                self.nodes[inp["id"]] = post(inp["id"], self.nodes[inp["id"]])
         for nd in spec["nodes"]:
             args = [self.nodes[a] if ps.is_ref(a) else ps.dec_scalar(a) for a in nd["args"]]
             p = dict(nd.get("params", {}))
@@ -114,8 +117,11 @@ class SymBuild:
                                                    dtype=np.dtype(p["dtype"]))
                 else:
                     self.nodes[nd["id"]] = getattr(pt, nd["op"])(shp, dtype=np.dtype(p["dtype"]))
-                continue
-            self.nodes[nd["id"]] = ps.pt_apply(nd["op"], args, p)
+            else:
+                self.nodes[nd["id"]] = ps.pt_apply(nd["op"], args, p)
+            r = self.nodes[nd["id"]]
+            if post is not None and not any(r is a for a in args):
+                self.nodes[nd["id"]] = post(nd["id"], r)
 
     def outputs(self) -> dict[str, Any]:
         return {k: self.nodes[v] for k, v in self.spec["outputs"].items()}
